@@ -235,7 +235,9 @@ class ObjectTemplate(base.HyperValue, utils.Formattable):
         # NOTE(daiyip): Special handle the case when the root value needs to be
         # replaced. For example: `template(oneof([0, 1])).decode(geno.DNA(0))`
         # should return 0 instead of rebinding the root `OneOf` object.
-        value = rebind_dict['']
+        # NOTE: the decoded value is copied, as it could be a candidate object
+        # owned by the template.
+        value = symbolic.clone(rebind_dict[''], deep=True)
       else:
         # NOTE(daiyip): Instead of deep copying the whole object (with hyper
         # primitives), we can cherry-pick only non-hyper parts. Unless we saw
